@@ -47,6 +47,10 @@ pub struct Cfg {
     /// which fee schedule the pools and the vault are created with (see `fee3v`)
     #[serde(default)]
     pub fee_variant: u8,
+    /// asset kinds of the pools and the vault: 0 = (native, cw20, native), 1 = all native,
+    /// 2 = all cw20, 3 = (cw20, native, cw20); the vault holds the first asset
+    #[serde(default)]
+    pub kinds: u8,
 }
 
 #[derive(Serialize, Deserialize, Clone, Debug, PartialEq)]
@@ -68,9 +72,9 @@ pub struct Step {
 pub struct Toggle {
     cfg: Cfg,
     app: SimApp,
-    a_native: AssetInfo,
-    a_token: AssetInfo,
-    c_native: AssetInfo,
+    a: AssetInfo,
+    b: AssetInfo,
+    c: AssetInfo,
     pool_factory: String,
     router: String,
     pair: String,
@@ -90,6 +94,12 @@ pub struct Toggle {
 }
 
 /// (operations the path needs, as a bit mask: 1 deposit / 2 withdraw / 4 swap-or-loan; path name)
+/// hostile paths (constructed to be refused whatever the switches say; they must never get through
+/// while the operation they would perform is switched off)
+fn hostile(name: &str) -> bool {
+    name.starts_with("hostile_")
+}
+
 fn paths(t: &Target) -> Vec<(u8, &'static str)> {
     match t {
         Target::PairCp | Target::PairStable => vec![
@@ -102,8 +112,20 @@ fn paths(t: &Target) -> Vec<(u8, &'static str)> {
             (4, "swap_via_router_cw20"),
             // the helper already holds some LP of this pool (sent to it by mistake) when the deposit arrives
             (1, "provide_via_frontend_helper_holding_stray_lp"),
+            (1, "provide_for_receiver"),
+            (4, "swap_to_receiver"),
+            // the direct WithdrawLiquidity {} message (meant for token-factory LP) with some coin attached
+            (2, "hostile_withdraw_direct_message_with_coin"),
         ],
-        Target::Trio => vec![(1, "provide_direct"), (2, "withdraw_cw20_hook"), (4, "swap_native_message"), (4, "swap_cw20_hook")],
+        Target::Trio => vec![
+            (1, "provide_direct"),
+            (2, "withdraw_cw20_hook"),
+            (4, "swap_native_message"),
+            (4, "swap_cw20_hook"),
+            (1, "provide_for_receiver"),
+            (4, "swap_to_receiver"),
+            (2, "hostile_withdraw_direct_message_with_coin"),
+        ],
         Target::Vault => vec![
             (1, "deposit_direct"),
             (2, "withdraw_cw20_hook"),
@@ -111,12 +133,13 @@ fn paths(t: &Target) -> Vec<(u8, &'static str)> {
             (4, "flash_loan_via_router"),
             // a share withdrawal issued from inside a flash-loan callback needs both switches
             (2 | 4, "withdraw_inside_flash_loan"),
+            (2, "hostile_withdraw_direct_message_with_coin"),
         ],
     }
 }
 
 pub fn n_cases() -> u64 {
-    4 * 8 * 2
+    4 * 8 * 2 * 4
 }
 
 /// fee schedules: the usual one, and valid ones in which the swap / flash-loan fee, the protocol fee or
@@ -135,51 +158,125 @@ impl Toggle {
     fn asset(&self, info: &AssetInfo, a: u128) -> Asset {
         Asset { info: info.clone(), amount: Uint128::new(a) }
     }
-    fn allowance(&self, tok: &AssetInfo, spender: &str, a: u128) -> CosmosMsg {
-        wasm_exec(&asset_id(tok), &cw20::Cw20ExecuteMsg::IncreaseAllowance { spender: spender.into(), amount: Uint128::new(a), expires: None }, vec![])
+    fn is_native(info: &AssetInfo) -> bool {
+        matches!(info, AssetInfo::NativeToken { .. })
     }
-    fn native_coin(&self, info: &AssetInfo, a: u128) -> Coin {
-        coin(a, asset_id(info))
+    /// what the sender must do to hand `items` to `spender`: cw20 allowances, and the coins to attach
+    fn fund(&self, spender: &str, items: &[(&AssetInfo, u128)]) -> (Vec<CosmosMsg>, Vec<Coin>) {
+        let mut pre = vec![];
+        let mut coins = vec![];
+        for (info, a) in items {
+            if Self::is_native(info) {
+                coins.push(coin(*a, asset_id(info)));
+            } else {
+                pre.push(wasm_exec(&asset_id(info), &cw20::Cw20ExecuteMsg::IncreaseAllowance { spender: spender.into(), amount: Uint128::new(*a), expires: None }, vec![]));
+            }
+        }
+        coins.sort_by(|x, y| x.denom.cmp(&y.denom));
+        (pre, coins)
     }
-    /// messages of one entry path, valid by construction
+    fn pool_assets(&self) -> Vec<AssetInfo> {
+        match self.cfg.target {
+            Target::Trio => vec![self.a.clone(), self.b.clone(), self.c.clone()],
+            _ => vec![self.a.clone(), self.b.clone()],
+        }
+    }
+    /// (offer, ask): the first pool asset of the wanted kind and the pool asset after it
+    fn offer_of_kind(&self, native: bool) -> Option<(AssetInfo, AssetInfo)> {
+        let p = self.pool_assets();
+        let i = p.iter().position(|x| Self::is_native(x) == native)?;
+        Some((p[i].clone(), p[(i + 1) % p.len()].clone()))
+    }
+    /// a swap sent straight to the pool: native message or cw20 send hook, as the offered asset demands
+    fn swap_msgs(&self, offer: &AssetInfo, ask: &AssetInfo, amt: u128, to: Option<String>) -> Vec<CosmosMsg> {
+        let ms = Some(Decimal::percent(50));
+        match (&self.cfg.target, Self::is_native(offer)) {
+            (Target::Trio, true) => vec![wasm_exec(&self.trio, &trio::ExecuteMsg::Swap { offer_asset: self.asset(offer, amt), ask_asset: ask.clone(), belief_price: None, max_spread: ms, to }, vec![coin(amt, asset_id(offer))])],
+            (Target::Trio, false) => vec![wasm_exec(&asset_id(offer), &cw20::Cw20ExecuteMsg::Send { contract: self.trio.clone(), amount: Uint128::new(amt), msg: to_json_binary(&trio::Cw20HookMsg::Swap { ask_asset: ask.clone(), belief_price: None, max_spread: ms, to }).unwrap() }, vec![])],
+            (_, true) => vec![wasm_exec(&self.pair, &pair::ExecuteMsg::Swap { offer_asset: self.asset(offer, amt), belief_price: None, max_spread: ms, to }, vec![coin(amt, asset_id(offer))])],
+            (_, false) => vec![wasm_exec(&asset_id(offer), &cw20::Cw20ExecuteMsg::Send { contract: self.pair.clone(), amount: Uint128::new(amt), msg: to_json_binary(&pair::Cw20HookMsg::Swap { belief_price: None, max_spread: ms, to }).unwrap() }, vec![])],
+        }
+    }
+    fn provide_msgs(&self, receiver: Option<String>) -> Vec<CosmosMsg> {
+        let a = self.cfg.amount;
+        let p = self.pool_assets();
+        let items: Vec<(&AssetInfo, u128)> = p.iter().map(|i| (i, a)).collect();
+        match self.cfg.target {
+            Target::Trio => {
+                let (mut m, funds) = self.fund(&self.trio, &items);
+                m.push(wasm_exec(&self.trio, &trio::ExecuteMsg::ProvideLiquidity { assets: [self.asset(&p[0], a), self.asset(&p[1], a), self.asset(&p[2], a)], slippage_tolerance: None, receiver }, funds));
+                m
+            }
+            _ => {
+                let (mut m, funds) = self.fund(&self.pair, &items);
+                m.push(wasm_exec(&self.pair, &pair::ExecuteMsg::ProvideLiquidity { assets: [self.asset(&p[0], a), self.asset(&p[1], a)], slippage_tolerance: None, receiver }, funds));
+                m
+            }
+        }
+    }
+    fn helper_deposit_msgs(&self) -> Vec<CosmosMsg> {
+        let a = self.cfg.amount;
+        let (mut m, funds) = self.fund(&self.helper, &[(&self.a, a), (&self.b, a)]);
+        m.push(wasm_exec(&self.helper, &frontend_helper::ExecuteMsg::Deposit { pair_address: self.pair.clone(), assets: [self.asset(&self.a, a), self.asset(&self.b, a)], slippage_tolerance: None, unbonding_duration: 86_400 }, funds));
+        m
+    }
+    /// the coin attached to the hostile direct withdrawal: a denom foreign to everything, or a pool asset
+    fn stray_coin(&self) -> Coin {
+        let amt = (self.cfg.amount / 8).clamp(1, 500);
+        let pool_native = self.pool_assets().into_iter().find(Self::is_native);
+        match pool_native {
+            Some(n) if self.cfg.amount % 2 == 1 => coin(amt, asset_id(&n)),
+            _ => coin(amt, "uzzz"),
+        }
+    }
+    /// messages of one entry path, valid by construction (empty: the path does not exist for these asset kinds)
     fn path_msgs(&self, name: &str) -> Vec<CosmosMsg> {
         let a = self.cfg.amount;
+        let rt_spread = Some(Decimal::percent(50));
         match (&self.cfg.target, name) {
-            (Target::PairCp | Target::PairStable, "provide_direct") => vec![
-                self.allowance(&self.a_token, &self.pair, a),
-                wasm_exec(&self.pair, &pair::ExecuteMsg::ProvideLiquidity { assets: [self.asset(&self.a_native, a), self.asset(&self.a_token, a)], slippage_tolerance: None, receiver: None }, vec![self.native_coin(&self.a_native, a)]),
-            ],
-            (Target::PairCp | Target::PairStable, "provide_via_frontend_helper") => vec![
-                self.allowance(&self.a_token, &self.helper, a),
-                wasm_exec(&self.helper, &frontend_helper::ExecuteMsg::Deposit { pair_address: self.pair.clone(), assets: [self.asset(&self.a_native, a), self.asset(&self.a_token, a)], slippage_tolerance: None, unbonding_duration: 86_400 }, vec![self.native_coin(&self.a_native, a)]),
-            ],
-            (Target::PairCp | Target::PairStable, "provide_via_frontend_helper_holding_stray_lp") => vec![
-                wasm_exec(&self.pair_lp, &cw20::Cw20ExecuteMsg::Transfer { recipient: self.helper.clone(), amount: Uint128::new((a / 100).max(1)) }, vec![]),
-                self.allowance(&self.a_token, &self.helper, a),
-                wasm_exec(&self.helper, &frontend_helper::ExecuteMsg::Deposit { pair_address: self.pair.clone(), assets: [self.asset(&self.a_native, a), self.asset(&self.a_token, a)], slippage_tolerance: None, unbonding_duration: 86_400 }, vec![self.native_coin(&self.a_native, a)]),
-            ],
+            (Target::PairCp | Target::PairStable | Target::Trio, "provide_direct") => self.provide_msgs(None),
+            (Target::PairCp | Target::PairStable | Target::Trio, "provide_for_receiver") => self.provide_msgs(Some("bobby".into())),
+            (Target::PairCp | Target::PairStable, "provide_via_frontend_helper") => self.helper_deposit_msgs(),
+            (Target::PairCp | Target::PairStable, "provide_via_frontend_helper_holding_stray_lp") => {
+                let mut m = vec![wasm_exec(&self.pair_lp, &cw20::Cw20ExecuteMsg::Transfer { recipient: self.helper.clone(), amount: Uint128::new((a / 100).max(1)) }, vec![])];
+                m.extend(self.helper_deposit_msgs());
+                m
+            }
             (Target::PairCp | Target::PairStable, "withdraw_cw20_hook") => vec![wasm_exec(&self.pair_lp, &cw20::Cw20ExecuteMsg::Send { contract: self.pair.clone(), amount: Uint128::new(a / 4), msg: to_json_binary(&pair::Cw20HookMsg::WithdrawLiquidity {}).unwrap() }, vec![])],
-            (Target::PairCp | Target::PairStable, "swap_native_message") => vec![wasm_exec(&self.pair, &pair::ExecuteMsg::Swap { offer_asset: self.asset(&self.a_native, a / 10), belief_price: None, max_spread: Some(Decimal::percent(50)), to: None }, vec![self.native_coin(&self.a_native, a / 10)])],
-            (Target::PairCp | Target::PairStable, "swap_cw20_hook") => vec![wasm_exec(&asset_id(&self.a_token), &cw20::Cw20ExecuteMsg::Send { contract: self.pair.clone(), amount: Uint128::new(a / 10), msg: to_json_binary(&pair::Cw20HookMsg::Swap { belief_price: None, max_spread: Some(Decimal::percent(50)), to: None }).unwrap() }, vec![])],
-            (Target::PairCp | Target::PairStable, "swap_via_router_native") => vec![wasm_exec(&self.router, &router::ExecuteMsg::ExecuteSwapOperations { operations: vec![SwapOperation::TerraSwap { offer_asset_info: self.a_native.clone(), ask_asset_info: self.a_token.clone() }], minimum_receive: None, to: None, max_spread: Some(Decimal::percent(50)) }, vec![self.native_coin(&self.a_native, a / 10)])],
-            (Target::PairCp | Target::PairStable, "swap_via_router_cw20") => vec![wasm_exec(&asset_id(&self.a_token), &cw20::Cw20ExecuteMsg::Send { contract: self.router.clone(), amount: Uint128::new(a / 10), msg: to_json_binary(&router::Cw20HookMsg::ExecuteSwapOperations { operations: vec![SwapOperation::TerraSwap { offer_asset_info: self.a_token.clone(), ask_asset_info: self.a_native.clone() }], minimum_receive: None, to: None, max_spread: Some(Decimal::percent(50)) }).unwrap() }, vec![])],
-            (Target::Trio, "provide_direct") => vec![
-                self.allowance(&self.a_token, &self.trio, a),
-                wasm_exec(&self.trio, &trio::ExecuteMsg::ProvideLiquidity { assets: [self.asset(&self.a_native, a), self.asset(&self.a_token, a), self.asset(&self.c_native, a)], slippage_tolerance: None, receiver: None }, {
-                    let mut v = vec![self.native_coin(&self.a_native, a), self.native_coin(&self.c_native, a)];
-                    v.sort_by(|x, y| x.denom.cmp(&y.denom));
-                    v
-                }),
-            ],
+            (Target::PairCp | Target::PairStable, "hostile_withdraw_direct_message_with_coin") => vec![wasm_exec(&self.pair, &pair::ExecuteMsg::WithdrawLiquidity {}, vec![self.stray_coin()])],
+            (Target::PairCp | Target::PairStable | Target::Trio, "swap_native_message") => match self.offer_of_kind(true) {
+                Some((o, k)) => self.swap_msgs(&o, &k, a / 10, None),
+                None => vec![],
+            },
+            (Target::PairCp | Target::PairStable | Target::Trio, "swap_cw20_hook") => match self.offer_of_kind(false) {
+                Some((o, k)) => self.swap_msgs(&o, &k, a / 10, None),
+                None => vec![],
+            },
+            (Target::PairCp | Target::PairStable | Target::Trio, "swap_to_receiver") => {
+                let p = self.pool_assets();
+                self.swap_msgs(&p[p.len() - 1], &p[0], a / 10, Some("bobby".into()))
+            }
+            (Target::PairCp | Target::PairStable, "swap_via_router_native") => match self.offer_of_kind(true) {
+                Some((o, k)) => vec![wasm_exec(&self.router, &router::ExecuteMsg::ExecuteSwapOperations { operations: vec![SwapOperation::TerraSwap { offer_asset_info: o.clone(), ask_asset_info: k }], minimum_receive: None, to: None, max_spread: rt_spread }, vec![coin(a / 10, asset_id(&o))])],
+                None => vec![],
+            },
+            (Target::PairCp | Target::PairStable, "swap_via_router_cw20") => match self.offer_of_kind(false) {
+                Some((o, k)) => vec![wasm_exec(&asset_id(&o), &cw20::Cw20ExecuteMsg::Send { contract: self.router.clone(), amount: Uint128::new(a / 10), msg: to_json_binary(&router::Cw20HookMsg::ExecuteSwapOperations { operations: vec![SwapOperation::TerraSwap { offer_asset_info: o.clone(), ask_asset_info: k }], minimum_receive: None, to: None, max_spread: rt_spread }).unwrap() }, vec![])],
+                None => vec![],
+            },
             (Target::Trio, "withdraw_cw20_hook") => vec![wasm_exec(&self.trio_lp, &cw20::Cw20ExecuteMsg::Send { contract: self.trio.clone(), amount: Uint128::new(a / 4), msg: to_json_binary(&trio::Cw20HookMsg::WithdrawLiquidity {}).unwrap() }, vec![])],
-            (Target::Trio, "swap_native_message") => vec![wasm_exec(&self.trio, &trio::ExecuteMsg::Swap { offer_asset: self.asset(&self.a_native, a / 10), ask_asset: self.c_native.clone(), belief_price: None, max_spread: Some(Decimal::percent(50)), to: None }, vec![self.native_coin(&self.a_native, a / 10)])],
-            (Target::Trio, "swap_cw20_hook") => vec![wasm_exec(&asset_id(&self.a_token), &cw20::Cw20ExecuteMsg::Send { contract: self.trio.clone(), amount: Uint128::new(a / 10), msg: to_json_binary(&trio::Cw20HookMsg::Swap { ask_asset: self.a_native.clone(), belief_price: None, max_spread: Some(Decimal::percent(50)), to: None }).unwrap() }, vec![])],
-            (Target::Vault, "deposit_direct") => vec![wasm_exec(&self.vault, &vault::ExecuteMsg::Deposit { amount: Uint128::new(a) }, vec![self.native_coin(&self.a_native, a)])],
+            (Target::Trio, "hostile_withdraw_direct_message_with_coin") => vec![wasm_exec(&self.trio, &trio::ExecuteMsg::WithdrawLiquidity {}, vec![self.stray_coin()])],
+            (Target::Vault, "deposit_direct") => {
+                let (mut m, funds) = self.fund(&self.vault, &[(&self.a, a)]);
+                m.push(wasm_exec(&self.vault, &vault::ExecuteMsg::Deposit { amount: Uint128::new(a) }, funds));
+                m
+            }
             (Target::Vault, "withdraw_cw20_hook") => vec![wasm_exec(&self.vault_lp, &cw20::Cw20ExecuteMsg::Send { contract: self.vault.clone(), amount: Uint128::new(a / 4), msg: to_json_binary(&vault::Cw20HookMsg::Withdraw {}).unwrap() }, vec![])],
+            (Target::Vault, "hostile_withdraw_direct_message_with_coin") => vec![wasm_exec(&self.vault, &vault::ExecuteMsg::Withdraw {}, vec![if Self::is_native(&self.a) && a % 2 == 1 { coin((a / 8).clamp(1, 500), asset_id(&self.a)) } else { coin((a / 8).clamp(1, 500), "uzzz") }])],
             (Target::Vault, "flash_loan_direct") => {
                 let amt = a / 10;
                 let pay = amt + amt / 1000 + amt * 2 / 1000 + 3;
-                vec![wasm_exec(&self.borrower, &vh::ExecuteMsg::Run { program: vec![Action::Loan { vault: self.vault.clone(), amount: Uint128::new(amt), program: vec![Action::Pay { to: self.vault.clone(), asset: self.a_native.clone(), amount: Uint128::new(pay) }] }] }, vec![])]
+                vec![wasm_exec(&self.borrower, &vh::ExecuteMsg::Run { program: vec![Action::Loan { vault: self.vault.clone(), amount: Uint128::new(amt), program: vec![Action::Pay { to: self.vault.clone(), asset: self.a.clone(), amount: Uint128::new(pay) }] }] }, vec![])]
             }
             (Target::Vault, "withdraw_inside_flash_loan") => {
                 // the user hands shares to the borrower, which withdraws them inside the callback of its own
@@ -191,7 +288,7 @@ impl Toggle {
                     wasm_exec(&self.vault_lp, &cw20::Cw20ExecuteMsg::Transfer { recipient: self.borrower.clone(), amount: Uint128::new(shares) }, vec![]),
                     wasm_exec(&self.borrower, &vh::ExecuteMsg::Run { program: vec![Action::Loan { vault: self.vault.clone(), amount: Uint128::new(amt), program: vec![
                         Action::WithdrawShares { vault: self.vault.clone(), lp: self.vault_lp.clone(), amount: Uint128::new(shares) },
-                        Action::Pay { to: self.vault.clone(), asset: self.a_native.clone(), amount: Uint128::new(pay) },
+                        Action::Pay { to: self.vault.clone(), asset: self.a.clone(), amount: Uint128::new(pay) },
                     ] }] }, vec![]),
                 ]
             }
@@ -199,8 +296,8 @@ impl Toggle {
                 let amt = a / 10;
                 let fees = amt / 1000 + amt * 2 / 1000 + 3;
                 vec![wasm_exec(&self.vault_router, &vault_router::ExecuteMsg::FlashLoan {
-                    assets: vec![self.asset(&self.a_native, amt)],
-                    msgs: vec![wasm_exec(&self.borrower, &vh::ExecuteMsg::Run { program: vec![Action::Pay { to: self.vault_router.clone(), asset: self.a_native.clone(), amount: Uint128::new(fees) }] }, vec![])],
+                    assets: vec![self.asset(&self.a, amt)],
+                    msgs: vec![wasm_exec(&self.borrower, &vh::ExecuteMsg::Run { program: vec![Action::Pay { to: self.vault_router.clone(), asset: self.a.clone(), amount: Uint128::new(fees) }] }, vec![])],
                 }, vec![])]
             }
             _ => vec![],
@@ -247,8 +344,8 @@ impl Toggle {
     fn quote(&self) -> Option<String> {
         let a = (self.cfg.amount / 10).max(1);
         match self.cfg.target {
-            Target::PairCp | Target::PairStable => query::<pair::SimulationResponse, _>(&self.app, &self.pair, &pair::QueryMsg::Simulation { offer_asset: self.asset(&self.a_native, a) }).ok().map(|r| format!("{r:?}")),
-            Target::Trio => query::<trio::SimulationResponse, _>(&self.app, &self.trio, &trio::QueryMsg::Simulation { offer_asset: self.asset(&self.a_native, a), ask_asset: self.asset(&self.c_native, 0) }).ok().map(|r| format!("{r:?}")),
+            Target::PairCp | Target::PairStable => query::<pair::SimulationResponse, _>(&self.app, &self.pair, &pair::QueryMsg::Simulation { offer_asset: self.asset(&self.a, a) }).ok().map(|r| format!("{r:?}")),
+            Target::Trio => query::<trio::SimulationResponse, _>(&self.app, &self.trio, &trio::QueryMsg::Simulation { offer_asset: self.asset(&self.a, a), ask_asset: self.asset(&self.c, 0) }).ok().map(|r| format!("{r:?}")),
             Target::Vault => None,
         }
     }
@@ -271,7 +368,8 @@ impl Scenario for Toggle {
     type Step = Step;
 
     fn gen_cfg(rng: &mut Rng, _prop: &str, _tier: Tier, idx: u64) -> Cfg {
-        let i = idx % n_cases();
+        let kinds = ((idx % n_cases()) / 64) as u8;
+        let i = idx % 64;
         let target = match i / 16 {
             0 => Target::PairCp,
             1 => Target::PairStable,
@@ -281,7 +379,7 @@ impl Scenario for Toggle {
         let amount = rng.range128(200_000, 5_000_000_000);
         let partial_order = if rng.chance(1, 2) { Some(rng.below(6) as u8) } else { None };
         let combined = rng.chance(1, 2);
-        Cfg { target, bits: ((i / 2) % 8) as u8, funded: i % 2 == 1, amount, case_index: i, partial_order, combined, fee_variant: if rng.chance(1, 2) { 0 } else { rng.below(4) as u8 } }
+        Cfg { target, bits: ((i / 2) % 8) as u8, funded: i % 2 == 1, amount, case_index: i, partial_order, combined, fee_variant: if rng.chance(1, 2) { 0 } else { rng.below(4) as u8 }, kinds }
     }
 
     fn max_steps(_cfg: &Cfg) -> usize {
@@ -290,7 +388,8 @@ impl Scenario for Toggle {
 
     fn build(cfg: &Cfg, ctx: &mut Ctx) -> Self {
         let big = 10u128.pow(15);
-        let mut app = new_app(&[(USER, vec![coin(big, "uaaa"), coin(big, "uccc")]), (OWNER, vec![coin(big, "uaaa"), coin(big, "uccc")])]);
+        let wallet = || vec![coin(big, "uaaa"), coin(big, "ubbb"), coin(big, "uccc"), coin(big, "uzzz")];
+        let mut app = new_app(&[(USER, wallet()), (OWNER, wallet())]);
         let token_code = app.store_code(code::token());
         let pair_code = app.store_code(code::pair());
         let trio_code = app.store_code(code::trio());
@@ -305,9 +404,17 @@ impl Scenario for Toggle {
         let fd_code = app.store_code(code::fee_distributor_mock());
         let fh_code = app.store_code(code::frontend_helper());
         let tok = new_cw20(&mut app, token_code, "TKB", 6, OWNER, &[(USER, big), (OWNER, big)]);
-        let (a_native, a_token, c_native) = (native("uaaa"), token(&tok), native("uccc"));
+        let (a_native, a_token, c_native) = match cfg.kinds % 4 {
+            0 => (native("uaaa"), token(&tok), native("uccc")),
+            1 => (native("uaaa"), native("ubbb"), native("uccc")),
+            k => {
+                let tka = new_cw20(&mut app, token_code, "TKA", 6, OWNER, &[(USER, big), (OWNER, big)]);
+                let tkc = new_cw20(&mut app, token_code, "TKC", 6, OWNER, &[(USER, big), (OWNER, big)]);
+                (token(&tka), if k == 2 { token(&tok) } else { native("ubbb") }, token(&tkc))
+            }
+        };
         let pool_factory = must_instantiate(&mut app, pf_code, OWNER, &factory::InstantiateMsg { pair_code_id: pair_code, trio_code_id: trio_code, token_code_id: token_code, fee_collector_addr: COLLECTOR.into() }, "pf", None);
-        for d in ["uaaa", "uccc"] {
+        for d in ["uaaa", "ubbb", "uccc"] {
             must_exec(&mut app, OWNER, &pool_factory, &factory::ExecuteMsg::AddNativeTokenDecimals { denom: d.into(), decimals: 6 }, vec![coin(1, d)]);
         }
         let f = fee3v(cfg.fee_variant);
@@ -324,18 +431,22 @@ impl Scenario for Toggle {
         let vc: vault::Config = query(&app, &vault_addr, &vault::QueryMsg::Config {}).expect("vault cfg");
         let vault_router = must_instantiate(&mut app, vr_code, OWNER, &vault_router::InstantiateMsg { owner: OWNER.into(), vault_factory_addr: vault_factory.clone() }, "vr", None);
         let borrower = must_instantiate(&mut app, b_code, OWNER, &cosmwasm_std::Empty {}, "borrower", None);
-        let r = tx(&mut app, OWNER, vec![bank_send(&borrower, 10u128.pow(12), "uaaa")], Fault::None);
+        let prefund = match &a_native {
+            AssetInfo::NativeToken { denom } => bank_send(&borrower, 10u128.pow(12), denom),
+            AssetInfo::Token { contract_addr } => wasm_exec(contract_addr, &cw20::Cw20ExecuteMsg::Transfer { recipient: borrower.clone(), amount: Uint128::new(10u128.pow(12)) }, vec![]),
+        };
+        let r = tx(&mut app, OWNER, vec![prefund], Fault::None);
         assert!(r.outcome.is_ok());
         let fd = must_instantiate(&mut app, fd_code, OWNER, &fee_distributor_mock::msg::InstantiateMsg {}, "fdmock", None);
-        let inc_factory = must_instantiate(&mut app, if_code, OWNER, &incentive_factory::InstantiateMsg { fee_collector_addr: COLLECTOR.into(), fee_distributor_addr: fd, create_flow_fee: Asset { info: c_native.clone(), amount: Uint128::new(1000) }, max_concurrent_flows: 5, incentive_code_id: inc_code, max_flow_epoch_buffer: 14, min_unbonding_duration: 86_400, max_unbonding_duration: 31_536_000 }, "if", None);
+        let inc_factory = must_instantiate(&mut app, if_code, OWNER, &incentive_factory::InstantiateMsg { fee_collector_addr: COLLECTOR.into(), fee_distributor_addr: fd, create_flow_fee: Asset { info: native("uccc"), amount: Uint128::new(1000) }, max_concurrent_flows: 5, incentive_code_id: inc_code, max_flow_epoch_buffer: 14, min_unbonding_duration: 86_400, max_unbonding_duration: 31_536_000 }, "if", None);
         must_exec(&mut app, OWNER, &inc_factory, &incentive_factory::ExecuteMsg::CreateIncentive { lp_asset: pi.liquidity_token.clone() }, vec![]);
         let helper = must_instantiate(&mut app, fh_code, OWNER, &frontend_helper::InstantiateMsg { incentive_factory: inc_factory }, "helper", None);
         let mut s = Toggle {
             cfg: cfg.clone(),
             app,
-            a_native,
-            a_token,
-            c_native,
+            a: a_native,
+            b: a_token,
+            c: c_native,
             pool_factory,
             router,
             pair: pi.contract_addr,
@@ -452,8 +563,13 @@ impl Scenario for Toggle {
             }
         };
         let enabled = bits & need == need;
-        let fp0 = fingerprint(&self.app);
         let msgs = self.path_msgs(name);
+        if msgs.is_empty() {
+            // this entry path does not exist for the asset kinds of this case
+            ctx.trace(&format!("{:?}/{name}:{:?}:n/a", self.cfg.target, step.phase));
+            return;
+        }
+        let fp0 = fingerprint(&self.app);
         let r = tx(&mut self.app, USER, msgs, Fault::None);
         let fp1 = fingerprint(&self.app);
         let opname = format!("{:?}/{name}", self.cfg.target);
@@ -462,7 +578,7 @@ impl Scenario for Toggle {
         ctx.eval("C17");
         let e = r.outcome.err_text();
         if !enabled {
-            ctx.probe("disabled_path_exercised");
+            ctx.probe(if hostile(name) { "disabled_hostile_path_exercised" } else { "disabled_path_exercised" });
             if r.outcome.is_ok() {
                 ctx.fail("C17", "disabled_op_rejected", name, None, format!("{opname} succeeded although its operation is disabled (toggles {:03b}, funded {})", bits, self.cfg.funded));
             } else if fp0 != fp1 {
@@ -473,11 +589,11 @@ impl Scenario for Toggle {
                 ctx.fail("C17", "enabled_op_not_refused_as_disabled", name, None, format!("{opname} refused as disabled although its flag is on (toggles {:03b}): {e}", bits));
             }
             // with liquidity present every enabled path is constructed to succeed
-            if self.cfg.funded && !r.outcome.is_ok() {
+            if self.cfg.funded && !r.outcome.is_ok() && !hostile(name) {
                 ctx.fail("C17", "other_ops_keep_working", name, None, format!("{opname} failed with its flag on (toggles {:03b}, phase {:?}): {e}", bits, step.phase));
             }
-            if r.outcome.is_ok() {
-                ctx.state_of(&format!("{}:{}:{}:{:?}", self.cfg.case_index, name, self.cfg.amount, step.phase));
+            if r.outcome.is_ok() && !hostile(name) {
+                ctx.state_of(&format!("{}:{}:{}:{}:{:?}", self.cfg.kinds, self.cfg.case_index, name, self.cfg.amount, step.phase));
                 ctx.probe("enabled_path_succeeded");
             }
         }
